@@ -2637,7 +2637,26 @@ class CondTr(Generic[X, R], Trace[X, R]):
         return jnp.where(self.check, *map(get_retval, self.trs))
 
     def get_score(self) -> Score:
-        return jnp.where(self.check, *map(get_score, self.trs))
+        n_lane_axes = jnp.ndim(self.check)
+        if n_lane_axes == 0:
+            return jnp.where(self.check, *map(get_score, self.trs))
+        # A vectorised Cond trace (the Cond was the callee of a Vmap): the branch
+        # traces' own get_score() already adds all lanes up, so select the branch
+        # lane by lane on the per-lane scores and add the lanes up afterwards.
+        lane_scores = [_lane_scores(tr, n_lane_axes) for tr in self.trs]
+        return jnp.sum(jnp.where(self.check, *lane_scores))
+
+
+def _lane_scores(tr, n_lane_axes: int):
+    """Score of a vectorised trace per lane: all but the leading lane axes summed."""
+    if isinstance(tr, CondTr):
+        inner_axes = jnp.ndim(tr.check)
+        s = jnp.where(tr.check, *[_lane_scores(t, inner_axes) for t in tr.trs])
+    elif isinstance(tr, ScanTr):
+        return _lane_scores(tr.traces, n_lane_axes)
+    else:
+        s = tr._score
+    return jnp.sum(s, axis=tuple(range(n_lane_axes, jnp.ndim(s))))
 
 
 @Pytree.dataclass
